@@ -480,3 +480,19 @@ def accumulating_flags(f):
                             mono = True
                 # an assignment that is immediately followed by leaving the loop records a search result, not an accumulation
                 yield v, loop, x, mono
+
+
+def rule_accumulators(F, rep, rid, pred, floor, where_txt, consequence):
+    """Shared rule: in the functions selected by pred, a bool gathered over a loop and consulted afterwards is only ever raised
+    (or records a search result that ends the loop)."""
+    from facts import AnalysisBroken
+    rep.rule(rid, 'in %s a flag that is gathered over a loop and consulted afterwards is only ever raised inside the loop (or the loop stops at the first hit): a plain assignment `flag = <test of this element>` lets the LAST element decide; %s' % (where_txt, consequence))
+    n = 0
+    for g in F.funcs.values():
+        if not pred(g):
+            continue
+        for v, loop, x, mono in accumulating_flags(g):
+            n += 1
+            rep.check(mono, rid, '%s|%s' % (g.name, render(x)[:50]), g.where(x), '%s: `%s` inside the loop lets the last element decide `%s`, which is consulted after the loop' % (g.short, render(x)[:60], v['n']), 'only raised')
+    if n < floor:
+        raise AnalysisBroken('%s: %d accumulating flags found in %s, %d confirmed' % (rid, n, where_txt, floor))
